@@ -1,6 +1,8 @@
 (* C32 specification, text side: JSON documents (RFC 8259) as a data type -- every choice the grammar
    leaves open (whitespace, which characters are escaped and how, hex digit case, number spelling) is
    part of the value of type `dj`; `render` is the text, `erase` the JSON value it denotes.
+   An escape \uD800..\uDFFF that is not half of a pair is not part of the grammar: it does not denote
+   a Unicode string (and the parser rejects it).
    The grammar is slightly wider than the RFC (raw control bytes inside strings are allowed; the
    number text only has to start with '-' or a digit, continue with [0-9.eE+-] and be accepted by the
    float oracle), which only makes the theorems stronger.  Definitions only. *)
@@ -70,7 +72,6 @@ Definition char_ok (c : dchar) : bool :=
       | _, _ => false
       end
   end.
-Definition is_pair (c : dchar) : bool := match c with CPair _ _ _ _ _ _ _ _ => true | _ => false end.
 
 Definition render_str (s : list dchar) : list Z := 34 :: flat_map render_char s ++ [34].
 Definition str_value (s : list dchar) : list Z := flat_map char_value s.
@@ -130,10 +131,8 @@ Fixpoint trail (d : dj) : list Z :=
 
 Section WF.
   Variable num_of : list Z -> res Z.     (* str::parse::<f64> *)
-  Variable pairs_allowed : bool.
 
-  Definition str_ok (s : list dchar) : bool :=
-    forallb (fun c => char_ok c && (pairs_allowed || negb (is_pair c))) s.
+  Definition str_ok (s : list dchar) : bool := forallb char_ok s.
 
   Definition num_ok (text : list Z) (bits : Z) : bool :=
     match text with
